@@ -16,12 +16,12 @@ SPEC = dict(
              'schema derivation: tag dispatch of VmStackValue.deserialize on the 15-bit / 2-byte preload, the VmTuple / VmTupleRef / VmStackList '
              'recursions, the ten VmCont branches, VmControlData); corollary c17_serialize_injective. c17_pure / c17_twice (in an explicit model of '
              'what serialize leaves in the caller\'s objects the post-state equals the pre-state, so a second call returns the same cell; the same '
-             'model with the pre-fix code path exhibits F20). c17_roundtrip_partial is the field-level statement underneath (intN/uintN fields and '
+             'model with the pre-fix code path exhibits F20). c17_roundtrip_fields is the field-level statement underneath (intN/uintN fields and '
              'VmCellSlice records are read back exactly). Sampling is used only to tie the model to the code: on the library alone '
              '(deserialize(serialize(vs)) == vs by content, hash == an independent Python transcription of the schema, serialize twice, deep '
              'snapshot of the caller\'s values) and against the Lean model (cell hash, post-state, parsed stack, parser on damaged input).',
         level_note='Full proof of all three clauses over the model. The parser model carries a recursion budget (one unit per nested call; Python has '
-                   'none): the round trip holds for every budget from some bound on. Trusted: Model/VmStack.lean mirrors vm_stack.py by hand '
+                   'none): the round trip holds for every budget >= fuelL vs, an explicit bound linear in the size of the stack (the driver runs with 10^8). Trusted: Model/VmStack.lean mirrors vm_stack.py by hand '
                    '(Python lists stored last-first); '
                    'Spec/Tlb/VmStack.lean says what block.tlb says; the save list (HashmapE 4 VmStackValue) is an opaque dictionary root cell '
                    'in model and spec (HashMap codec is C09/C10); cell construction is a parameter (mk/view/ord) with the laws view(mk b r) = (b, r), '
